@@ -142,6 +142,46 @@ def main_repeat_oracle(rng):
     return None
 
 
+def cli_throttle_oracle():
+    """`hera --throttle n file` (both spellings) ends where the machine is after n instructions of the plain run:
+    n = 0 executes nothing (seed C15d: the command line turned --throttle 0 into "no throttle")."""
+    from hera.main import main
+    text = "SET(R1, 5)\nINC(R1, 3)\nINC(R2, 1)\nADD(R3, R1, R2)\nINC(R4, 7)\n"
+    with tempfile.TemporaryDirectory() as d:
+        p = os.path.join(d, "t.hera")
+        open(p, "w").write(text)
+        vm, exc, out, err = run_real(lambda: main(["--quiet", p]))
+        if exc or vm is None:
+            return None
+        full = list(vm.registers)
+        # the state after n instructions, by single-stepping a fresh machine through the loaded program
+        from hera.data import Settings
+        from hera.loader import load_program
+        from hera.vm import VirtualMachine
+        st = Settings()
+        with open(os.devnull, "w") as devnull:
+            pass
+        prog, exc2, _, _ = run_real(lambda: load_program(text, st))
+        if exc2:
+            return None
+        ref = VirtualMachine(st)
+        ref.reset()
+        states = [list(ref.registers)]
+        for op in prog.code:
+            op.execute(ref)
+            states.append(list(ref.registers))
+        for n in range(0, len(prog.code) + 2):
+            want = states[min(n, len(prog.code))]
+            for argv in (["--quiet", "--throttle", str(n), p], ["--quiet", "--throttle=%d" % n, p], ["--throttle", "%02d" % n, "-q", p]):
+                vm, exc, out, err = run_real(lambda: main(list(argv)))
+                if exc not in (None, "SystemExit") or vm is None:
+                    return "hera %s: %s" % (" ".join(argv[:-1]), exc)
+                if list(vm.registers) != want:
+                    return "hera %s <5-instruction program> ends with registers %r; after %d instructions the machine holds %r" % (
+                        " ".join(argv[:-1]), list(vm.registers)[:6], n, want[:6])
+    return None
+
+
 def stdin_repeat_oracle():
     """Input an earlier run read but did not consume must not reach the next run on the same machine."""
     import io
@@ -217,13 +257,17 @@ def correspondence(ctx, model_available=True):
     bad = stdin_repeat_oracle()
     if bad:
         spec_failures.append({"what": bad})
+    bad = cli_throttle_oracle()
+    if bad:
+        spec_failures.append({"what": bad})
     return {
         "cases": len(pcases) + dist["throttle_points"] + dist["repeat_triples"],
         "nontrivial": len(nontrivial) + pres["agree"],
         "rule": "whole programs run by the model and the real VirtualMachine from dirty machine states with and "
                 "without throttling; on the real machine: `throttle n` for every n in 0..len+2 against a snapshot of "
                 "the unthrottled run taken when its (n+1)-th instruction is fetched; run / run again / run another "
-                "program / run again on one machine; hera.main.main repeated in one process",
+                "program / run again on one machine; hera.main.main repeated in one process; `hera --throttle n` (both "
+                "spellings, n = 0..len+1) against single-stepping",
         "distribution": dist,
         "samples": [rc.case_json(pcases[0])],
         "disagreements": pres["disagreements"],
